@@ -108,6 +108,16 @@ def conversations(tier):
         convs.append({'name': 'login-encrypted/%d' % proto, 'call': 'connect',
                       'allowed': [proto], 'fault_conn': 0,
                       'conns': [{'login': [enc, ['success']], 'play': pl}]})
+        # a kick that does not wait for the answers it is owed: the client's
+        # own sends may fail while it winds the connection down
+        convs.append({'name': 'play-kick/%d' % proto, 'call': 'connect',
+                      'allowed': [proto], 'fault_conn': 0,
+                      'net': {'send_error': True},
+                      'conns': [{'login': [['success']],
+                                 'play': [['ka', 7], pl[1], ['ka', 300],
+                                          ['ka', 301],
+                                          ['disconnect',
+                                           '{"text":"kicked"}']]}]})
         if proto == protos[0] or tier != 'quick':
             convs.append({'name': 'login-both/%d' % proto, 'call': 'connect',
                           'allowed': [proto], 'fault_conn': 0,
@@ -131,6 +141,7 @@ def make_scenario(conv, k, variant=None):
           'net': {'latency_us': 200, 'eof_read_limit': EOF_READ_LIMIT},
           'sched': {'granularity': 'io', 'max_steps': 100000},
           'rand_seed': 12345}
+    sc['net'].update(conv.get('net') or {})
     if k is not None:
         sc['server']['conns'][base + conv['fault_conn']]['cut'] = k
         if conv.get('cut_every_status'):
@@ -204,6 +215,8 @@ def policy(rng, scenario):
         return Policy(p_sched=rng.choice([0, 0.02, 0.1]),
                       p_event=rng.choice([0, 0.05, 0.3]),
                       p_short=0.4, p_seg=0.4, name='seg')
+    if scenario['net'].get('send_error'):
+        return Policy(p_io=rng.choice([0.3, 1.0]), name='plain+send-errors')
     return Policy(name='plain')
 
 
